@@ -103,7 +103,12 @@ def rule_R02_1(ctx, restrict_fns=None, rule_id="R02.1"):
                     f.path, locks.short_ty(T), name)
                 # descent exemption
                 srcs = set()
-                for a in c.args:
+                for ai, a in enumerate(c.args):
+                    aty = c.argtys[ai] if ai < len(c.argtys) else ""
+                    # only arguments that can carry a Seed container matter
+                    if not ("eval::value::" in aty or "std::sync::Mutex<" in aty
+                            or "eval::scope::" in aty or aty == ""):
+                        continue
                     srcs |= locks.backward_sources(f, a, set(held))
                 if srcs and srcs <= {("guard", g)}:
                     r.inst(inst + " [descent into the guarded container's "
